@@ -81,9 +81,20 @@ def _verdict(prop, st, cl=None, det=None, **kw):
     return d
 
 
-def _decl_check(r, exp, prop, what):
-    """declared inputs / output of a lazily built term equal the typing rules (as maps)"""
-    bad = compare.check_inputs_exact(r, exp)
+def _contains_sub(t):
+    if isinstance(t, dict):
+        return t.get("c") == "Sub" or any(_contains_sub(v) for v in t.values())
+    if isinstance(t, list):
+        return any(_contains_sub(v) for v in t)
+    return False
+
+
+def _decl_check(r, exp, prop, what, performed_subs=False):
+    """declared inputs / output of a lazily built term equal the typing rules (as maps).
+    performed_subs: the program contains a substitution that funsor may PERFORM even under lazy
+    (Stack / Cat / Tensor / Slice pick a part or index data): the declared inputs may then omit
+    inputs the value no longer depends on (DESIGN.md 0.4)."""
+    bad = compare.check_inputs_subset(r, exp) if performed_subs else compare.check_inputs_exact(r, exp)
     if bad:
         return _verdict(prop, "mismatch", what + "_" + bad,
                         {"got": [[k, str(v)] for k, v in r.inputs.items()], "want": exp["ins"]})
@@ -127,7 +138,7 @@ def c06(rec):
     if _has_getslice(rec["t"]):
         try:
             r2 = _build(rec, lazy, index_style="ellipsis")
-            bad = _decl_check(r2, exp, "C06", "lazy_ellipsis")
+            bad = _decl_check(r2, exp, "C06", "lazy_ellipsis", performed_subs=_contains_sub(rec["t"]))
             if bad:
                 return [bad]
             e2 = funsor.reinterpret(r2)
@@ -139,7 +150,9 @@ def c06(rec):
         r = _build(rec, lazy)
     except Exception as e:  # noqa
         return [_verdict("C06", "declined_error", type(e).__name__)]
-    bad = _decl_check(r, exp, "C06", "lazy")
+    from funsor.terms import Subs as _Subs2
+    performed = _contains_sub(rec["t"]) and not (rec["t"]["c"] == "Sub" and isinstance(r, _Subs2))
+    bad = _decl_check(r, exp, "C06", "lazy", performed_subs=performed)
     if bad:
         return [bad]
     out.append(_verdict("C06", "agree"))
